@@ -433,7 +433,8 @@ func classify(code uint32, codespace, logStr string, gasUsed int64, data []byte,
 		return
 	}
 	res.Code = fmt.Sprintf("%s/%d", codespace, code)
-	if codespace == "sdk" && code == 111222 {
+	// a panic recovered by baseapp: ErrPanic (code 111222; the codespace is "undefined" when the error is wrapped before registration lookup)
+	if code == 111222 || strings.HasPrefix(logStr, "recovered:") {
 		res.Panic = true
 	}
 	if strings.Contains(logStr, "failed to execute message") {
